@@ -50,6 +50,7 @@ func handlerRefusesDeactivated(c *ev.Ctx) {
 		c.Cov.Extra[fmt.Sprintf("handler_behaviours_with_submission_after_deactivate_unpub_%v", unpub)] = c.Cov.DistinctNontrivial - before
 	}
 }
+
 // intakeRecommit: C12 (intake half) - the real parser rejects every update / recover whose next commitment is the
 // commitment of the key it reveals (computed with the algorithm the next commitment names) and every create / recover
 // whose update and recovery commitments are equal; the valid baselines are accepted. All five key types.
